@@ -50,8 +50,15 @@ def install(w):
                # what is forwarded to the constructor is the caller's own node list, or has the
                # types the constructor's body needs - whatever attributes the original exception
                # carries
-               call_pre={"GraphQLError#1": TYPED},
+               # C10: an error that already knows where it happened keeps its own nodes - the nodes of the
+               # field that is being completed are only the fallback
+               call_pre={"GraphQLError#1": TYPED + [
+                   "implies(truthy(original_nodes) and NodeList(original_nodes),"
+                   " is_list(arg_nodes) and vlen(arg_nodes) == vlen(original_nodes)"
+                   " and forall(j, 0, vlen(arg_nodes), same(vitem(arg_nodes, j), vitem(original_nodes, j))))",
+                   "implies(instance_of(original_nodes, 'Node'),"
+                   " is_list(arg_nodes) and vlen(arg_nodes) == 1 and same(vitem(arg_nodes, 0), original_nodes))"]},
                # an exception class whose own __str__ (or that of its message) raises is outside
                # the statement's reach: str() of a user object is a user callable (A5)
                waive=["from `str(original_error"],
-               props={"C01"})
+               props={"C01", "C10"})
